@@ -499,7 +499,7 @@ impl Spaces {
     }
 
     pub fn names(&self) -> Vec<&'static str> {
-        vec!["nesting", "soups", "macros", "defines", "extremes", "names", "degenerate", "bytes2", "bytes_cls", "tokens", "tokens_cls", "directives", "mutants", "mutants_repo"]
+        vec!["nesting", "soups", "macros", "defines", "extremes", "names", "degenerate", "pipelines", "literal_forms", "bytes2", "bytes_cls", "tokens", "tokens_cls", "directives", "mutants", "mutants_repo"]
     }
 
     pub fn len(&self, space: &str) -> u64 {
@@ -518,7 +518,7 @@ impl Spaces {
                 let n = macro_def_lines().len() as u64;
                 (n + n * n + n * n * n) * macro_use_lines().len() as u64
             }
-            "mutants" => if self.quick { self.mutants.total / 3 } else { self.mutants.total * 6 },
+            "mutants" => if self.quick { self.mutants.total / 4 } else { self.mutants.total * 6 },
             "mutants_repo" => if self.quick { self.mutants_repo.total / 40 } else { self.mutants_repo.total },
             "extremes" => {
                 let nv = extreme_values().len() as u64;
@@ -527,6 +527,11 @@ impl Spaces {
             }
             "nesting" => nesting_families().iter().map(|f| f.2 as u64).sum::<u64>() * 4,
             "soups" => (soup_families().len() * soup_counts().len()) as u64,
+            "pipelines" => {
+                let n = PIPELINE_PROPERTIES.len() as u64;
+                (n + n * n + if self.quick { n * n * n / 4 } else { n * n * n }) * 2
+            }
+            "literal_forms" => (LITERAL_FORMS.len() * LITERAL_USES.len()) as u64 * 4,
             "degenerate" => (DEGENERATE_DECLS.len() * DEGENERATE_USES.len()) as u64 * 8,
             "names" => (NAME_WORDS.len() * NAME_KINDS.len() * NAME_KINDS.len() * NAME_SUFFIX_SETS.len()) as u64 * 4,
             _ => 0,
@@ -630,8 +635,8 @@ impl Spaces {
             }
             "mutants" => {
                 let per = if self.quick { 1 } else { 6 };
-                // quick: every 3rd mutant
-                let m = if self.quick { idx * 3 } else { idx / per };
+                // quick: every 4th mutant
+                let m = if self.quick { idx * 4 } else { idx / per };
                 let (fam, src) = self.mutants.get(m);
                 // quick: one combination per mutant, rotating; thorough: 6 combinations per mutant covering all targets,
                 // all modes and both validation settings across consecutive mutants
@@ -698,6 +703,40 @@ impl Spaces {
                 }
                 unreachable!()
             }
+            "pipelines" => {
+                // every sequence of <= 3 pipeline properties (valid ones, repeated ones, wrong values, unknown names)
+                let n = PIPELINE_PROPERTIES.len() as u64;
+                let target_sel = idx % 2;
+                let k0 = idx / 2;
+                let (len, mut k) = if k0 < n { (1, k0) } else if k0 < n + n * n { (2, k0 - n) } else { (3, k0 - n - n * n) };
+                if len == 3 && self.quick {
+                    k *= 4;
+                }
+                decode(k, &vec![n; len], &mut d);
+                let mut body = String::new();
+                for i in &d {
+                    body.push_str("    ");
+                    body.push_str(PIPELINE_PROPERTIES[*i as usize]);
+                    body.push('\n');
+                }
+                let src = format!("{}Pipeline P\n{{\n{}}}\n", PIPELINE_PRELUDE, body);
+                let mut c = Case::simple("pipeline-properties", src, 0);
+                // the typer does the work: two targets alternate (HLSL for DirectX and Metal)
+                c.cfg = if (target_sel + k0) % 2 == 0 { Cfg::Dx } else { Cfg::Msl };
+                c.mode = Mode::All;
+                c
+            }
+            "literal_forms" => {
+                // literals written in unusual but accepted ways (swizzled, constructed, suffixed) in positions that fix a type
+                let (nf, nu) = (LITERAL_FORMS.len() as u64, LITERAL_USES.len() as u64);
+                decode(idx, &[4, nu, nf], &mut d);
+                let src = LITERAL_USES[d[1] as usize].replace('%', LITERAL_FORMS[d[2] as usize]);
+                let mut c = Case::simple("literal-forms", format!("{}\n", src), 0);
+                c.cfg = ALL_CFGS[d[0] as usize];
+                c.mode = Mode::NoPipeline;
+                c.validate = d[2] % 2 == 0;
+                c
+            }
             "degenerate" => {
                 // empty / zero-sized declarations in every position that takes a type or a declaration
                 let (nd, nu) = (DEGENERATE_DECLS.len() as u64, DEGENERATE_USES.len() as u64);
@@ -745,6 +784,56 @@ impl Spaces {
         }
     }
 }
+
+const PIPELINE_PRELUDE: &str = "void VS(out float4 p : SV_Position) { p = float4(0, 0, 0, 1); }\nfloat4 PS() : SV_Target0 { return float4(0, 0, 0, 0); }\n[numthreads(1, 1, 1)] void CS() {}\n";
+
+const PIPELINE_PROPERTIES: &[&str] = &[
+    "VertexShader = VS;",
+    "PixelShader = PS;",
+    "ComputeShader = CS;",
+    "RenderTargetFormat0 = \"R8G8B8A8_UNORM\";",
+    "RenderTargetFormat1 = \"R32G32_UINT\";",
+    "RenderTargetFormat7 = \"R8G8B8A8_UNORM\";",
+    "DepthTargetFormat = \"D32_FLOAT\";",
+    "DefaultBindGroup = 1;",
+    "DefaultBindGroup = 0;",
+    "CullMode = \"Back\";",
+    "CullMode = \"None\";",
+    "WindingOrder = \"Clockwise\";",
+    "WindingOrder = \"CounterClockwise\";",
+    "BlendState = { BlendEnabled = true; SrcBlend = \"One\"; DstBlend = \"Zero\"; BlendOp = \"Add\"; }",
+    "BlendState0 = { BlendEnabled = false; WriteMask = 0xFu; }",
+    "BlendState0 = { BlendEnabled = true; BlendEnabled = false; Unknown = 1; }",
+    "Unknown = 1;",
+    "CullMode = 3;",
+    "RenderTargetFormat0 = \"NOT_A_FORMAT\";",
+    "VertexShader = Missing;",
+    "PixelShader = CS;",
+];
+
+const LITERAL_FORMS: &[&str] = &[
+    "(1).x", "(1).xx", "(1).xxxx", "(1.5).xx", "(1u).xxx", "(true).xx", "(1).xx.yx", "((1).xx).x", "int2(1, 2).xy", "float2(1, 2)", "(1, 2)", "-(1).xx", "(1).xx + 1", "(1).xx * (2).xx", "(1.5h).xx", "(1.5L).xx", "(1l).xx",
+    "(1ul).xx", "1.xx", "1..xx",
+];
+
+const LITERAL_USES: &[&str] = &[
+    "template<typename T> T pass(T v) { return v; }\nvoid f() { pass(%); }",
+    "template<typename T> T pass(T v) { return v; }\nfloat2 f() { return (float2)pass(%); }",
+    "RWByteAddressBuffer g_b;\nvoid f() { g_b.Store(0, %); }",
+    "RWByteAddressBuffer g_b;\nvoid f() { g_b.Store<uint2>(0, %); }",
+    "void f() { float2 v = %; }",
+    "void f() { int a[2]; a[0] = (%).x; }",
+    "float2 f() { return %; }",
+    "static const float2 k = %;\nfloat2 f() { return k; }",
+    "float f(float2 v) { return v.x; }\nfloat g() { return f(%); }",
+    "float f(int2 v) { return 1.0; }\nfloat f(float2 v) { return 2.0; }\nfloat g() { return f(%); }",
+    "struct S { float2 a; };\nvoid f() { S s = { % }; }",
+    "void f() { float a[(%).x]; }",
+    "enum E { A = (%).x };",
+    "void f(int x) { switch (x) { case (%).x: break; } }",
+    "RWStructuredBuffer<float2> g_s;\nvoid f() { g_s[0] = %; }",
+    "void f() { sizeof(%); }",
+];
 
 /// declarations of a type `T` with no data, no members or no size
 const DEGENERATE_DECLS: &[(&str, &str)] = &[
@@ -913,6 +1002,8 @@ pub fn run(ctx: &Ctx) -> i32 {
             "extremes" => 64,
             "names" => 40,
             "degenerate" => 20,
+            "pipelines" => 200,
+            "literal_forms" => 40,
             _ => 2_000,
         };
         let describe = |idx: u64| -> (String, String) {
@@ -928,7 +1019,7 @@ pub fn run(ctx: &Ctx) -> i32 {
     rep.absorb("time_growth_families", r);
     rep.cov("mutant_base_programs", Json::Int((sp.mutants.programs.len() + sp.mutants_repo.programs.len()) as i64));
     if ctx.quick() {
-        rep.caps_hit.push("quick tier: byte-class strings of length 4, full-alphabet token strings of length 3, 15/16 of the 3-line directive sequences, two independent extreme values per template, 2 of 3 core mutants (and 5 of 6 target/mode combinations per mutant) and 39 of 40 repository-input mutants are explored in the thorough tier only".into());
+        rep.caps_hit.push("quick tier: byte-class strings of length 4, full-alphabet token strings of length 3, 15/16 of the 3-line directive sequences, two independent extreme values per template, 3 of 4 core mutants (and 5 of 6 target/mode combinations per mutant) and 39 of 40 repository-input mutants are explored in the thorough tier only".into());
     }
     rep.caps_hit.push("token-class strings of length 4: every 4th string".into());
     rep.assumptions = vec![
